@@ -337,3 +337,62 @@ func VerifH_C03_MemMergeRound() {
 	s.asyncTasks.Wait()
 	rt.Cover(rt.And(unpersisted >= 2, len(models) > 3), "merge-with-batch-during")
 }
+
+// VerifH_C03_MemMergeGroups: the same round with several persister workers: four in-memory
+// segments are merged as two flush groups (NumPersisterWorkers=2) while a symbolic batch over all
+// four ids arrives during the merge - it may obsolete a whole group, whose merged segment is then
+// not introduced. After the round the directory holds exactly the snapshot that was being
+// persisted (all four earlier batches, nothing of the later one); after the next round the later
+// batch as a whole.
+func VerifH_C03_MemMergeGroups() {
+	dir := verifTempDir()
+	defer os.RemoveAll(dir)
+	nIDs := 4
+	s := verifStartDisk(dir, false)
+	s.persisterOptions = &persisterOptions{NumPersisterWorkers: 2, MaxSizeInMemoryMergePerWorker: 1, MemoryPressurePauseThreshold: math.MaxUint64}
+	s.asyncTasks.Add(1)
+	go s.introducerLoop()
+	models := []verifModel{{live: map[byte]bool{}}}
+	put := func(o verifOps) {
+		models = append(models, models[len(models)-1].apply(o))
+		rt.Assert(s.prepareSegment(o.seg(), o.ids(), map[string][]byte{"seq": {o.seq}}, nil) == nil, "batch accepted")
+	}
+	for b := 0; b < 4; b++ {
+		put(verifOps{seq: byte(b + 1), upsert: []byte{'a' + byte(b)}})
+	}
+	s.rootLock.Lock()
+	our := s.root
+	our.AddRef()
+	s.rootLock.Unlock()
+	rt.Assert(len(our.segment) == 4, "four in-memory segments")
+	during := rt.Choice("batch_during_merge", 2) == 1
+	verifMergeHook = func() {
+		verifMergeHook = nil
+		if during {
+			put(verifBatchOps(4, nIDs))
+		}
+	}
+	defer func() { verifMergeHook = nil }()
+	rt.Assert(s.persistSnapshot(our, s.persisterOptions) == nil, "persist round")
+	_ = our.DecRef()
+	live, seq, s2 := verifRecover(dir)
+	rt.Assert(verifSame(live, seq, models[4]), "after the round the directory holds exactly the batches of the persisted snapshot")
+	_ = s2.rootBolt.Close()
+	groupGone := false
+	if len(models) > 5 {
+		m := models[5]
+		groupGone = (!m.live['a'] && !m.live['b']) || (!m.live['c'] && !m.live['d'])
+		s.rootLock.Lock()
+		our = s.root
+		our.AddRef()
+		s.rootLock.Unlock()
+		rt.Assert(s.persistSnapshot(our, s.persisterOptions) == nil, "second persist round")
+		_ = our.DecRef()
+		live, seq, s2 = verifRecover(dir)
+		rt.Assert(verifSame(live, seq, models[5]), "after the next round the later batch is there as a whole")
+		_ = s2.rootBolt.Close()
+	}
+	close(s.closeCh)
+	s.asyncTasks.Wait()
+	rt.Cover(groupGone, "a-flush-group-was-obsoleted-during-the-merge")
+}
